@@ -83,6 +83,10 @@ add("C19", "runtime monitoring: history checker over solver runs - a probe on up
     "Configurations over targets x solver (Evolutionary 1-3 emitters, Hybrid) x backend x population / generations / hall-of-fame size / tournament / selection / adaptive x seed are each solved twice in the worker and once in two fresh processes with PYTHONHASHSEED 1 and 2: halls of fame (scores and exported circuits) must be identical; per generation the hall of fame is non-decreasing and the best score never gets worse; stored circuits are distinct objects sharing no operation with the population; every stored score equals the metric pipeline re-run on the stored circuit and the reference-judged infidelity; result is the best entry.",
     TRUST + "Small populations / few generations only.", "DESIGN.md section 5, C19")
 
+add("C06", "runtime monitoring: the lock-step compile monitor records the operations and outcomes each backend executed under noise; an independent reference applies the same operations with the channels the harness attached (directly or through a noise map whose meaning the harness derives itself); results of both backends are compared with it and with each other",
+    "Generated programs with depolarizing / Pauli / photon-loss noise of strengths {0, 1e-3, 0.1, 0.5, 1} before or after one-qubit gates, wrapper gates and CNOT/CZ (one or two entries), attached directly or via assign_noise, are compiled by the density-matrix backend and the stabilizer-mixture backend: Hermitian, PSD, trace = product of survival probabilities, equal to the reference; mixture weight and sum of weighted projectors equal to the reference; Infidelity with a random pure stabilizer target equal on both; zero strength / empty map / noise_simulation=False equal to the noiseless compile. The density-matrix backend is judged through uncertain measurements (post-selection), the mixture up to the first one; their disagreement there is the known finding measurement-on-noisy-state.",
+    TRUST + "Noise on measuring operations is not generated (documented as unsupported).", "DESIGN.md section 5, C06")
+
 NOT_YET = {
 }
 
